@@ -144,7 +144,7 @@ Theorem enc_i64_digits (k : Z) (a_size : nat) (v : Z) : 1 <= k <= Z.of_nat a_siz
   nthZ l (size - 1) mod 2 ^ enc_krem b k = 0.
 Proof.
   intros Hk Hv. cbv zeta. rewrite (enc_i64_spec b Hb k a_size v Hk Hv).
-  destruct (enc_spec_shape b Hb k a_size (top_eff 64 (b - enc_krem b k) v) Hk) as (A & B & C & D & _).
+  destruct (enc_spec_shape b Hb k a_size v Hk) as (A & B & C & D & _).
   auto.
 Qed.
 
@@ -154,34 +154,23 @@ Theorem enc_i128_digits (k : Z) (a_size : nat) (v : Z) : 1 <= k <= Z.of_nat a_si
   nthZ l (size - 1) mod 2 ^ enc_krem b k = 0.
 Proof.
   intros Hk Hv. cbv zeta. rewrite (enc_i128_spec b Hb k a_size v Hk Hv).
-  destruct (enc_spec_shape b Hb k a_size (top_eff 128 b v) Hk) as (A & B & C & D & _).
+  destruct (enc_spec_shape b Hb k a_size v Hk) as (A & B & C & D & _).
   auto.
 Qed.
 
-Lemma top_eff_id (w r v : Z) : v - wrap r v < 2 ^ (w - 1) -> top_eff w r v = v.
-Proof. intros H. unfold top_eff. destruct (Z.leb_spec (2 ^ (w - 1)) (v - wrap r v)); [lia|reflexivity]. Qed.
-
 (* the limbs hold v / 2^k on the torus (as integers: v * 2^krem modulo 2^(size b)) *)
 Theorem enc_i64_value (k : Z) (a_size : nat) (v : Z) : 1 <= k <= Z.of_nat a_size * b -> in_range 64 v ->
-  k <= 64 \/ v - wrap (b - enc_krem b k) v < 2 ^ 63 ->
   (e_lval b (firstn (enc_size b k) (enc_i64 b k a_size v)) - v * 2 ^ enc_krem b k)
     mod 2 ^ (Z.of_nat (enc_size b k) * b) = 0.
 Proof.
-  intros Hk Hv Hor. rewrite (enc_i64_spec b Hb k a_size v Hk Hv).
-  apply (enc_spec_value_congr b Hb k a_size _ v 64); auto; try lia.
-  - apply top_eff_congr. lia.
-  - destruct Hor as [H|H]; [left; exact H|right]. apply top_eff_id. exact H.
+  intros Hk Hv. rewrite (enc_i64_spec b Hb k a_size v Hk Hv). apply (enc_spec_value_congr b Hb); auto.
 Qed.
 
 Theorem enc_i128_value (k : Z) (a_size : nat) (v : Z) : 1 <= k <= Z.of_nat a_size * b -> in_range 128 v ->
-  k <= 128 \/ v - wrap b v < 2 ^ 127 ->
   (e_lval b (firstn (enc_size b k) (enc_i128 b k a_size v)) - v * 2 ^ enc_krem b k)
     mod 2 ^ (Z.of_nat (enc_size b k) * b) = 0.
 Proof.
-  intros Hk Hv Hor. rewrite (enc_i128_spec b Hb k a_size v Hk Hv).
-  apply (enc_spec_value_congr b Hb k a_size _ v 128); auto; try lia.
-  - apply top_eff_congr. lia.
-  - destruct Hor as [H|H]; [left; exact H|right]. apply top_eff_id. exact H.
+  intros Hk Hv. rewrite (enc_i128_spec b Hb k a_size v Hk Hv). apply (enc_spec_value_congr b Hb); auto.
 Qed.
 
 End Cor.
